@@ -35,6 +35,9 @@ pub enum C03Case {
         sha256: Option<Dk>,
         /// (digest kind, algorithm number)
         payload_digest: Option<(Dk, u32)>,
+        /// sort keys permuting the index records of both headers (empty = ascending tags)
+        #[serde(default)]
+        order: Vec<u16>,
     },
     /// one bit of hand-encoded base package `base` flipped
     BitFlip { base: u8, bit: u32 },
@@ -74,7 +77,16 @@ fn mangle_bin(correct: Vec<u8>, other: Vec<u8>, k: &Dk) -> Vec<u8> {
     }
 }
 
-fn construct(payload: &[u8], name: &str, md5: &Option<Dk>, sha1: &Option<Dk>, sha256: &Option<Dk>, pd: &Option<(Dk, u32)>) -> Vec<u8> {
+fn permute(v: &mut Vec<(u32, Val)>, order: &[u16], salt: usize) {
+    if order.is_empty() {
+        return;
+    }
+    let mut keyed: Vec<(u16, usize, (u32, Val))> = v.drain(..).enumerate().map(|(i, e)| (order[(i + salt) % order.len()], i, e)).collect();
+    keyed.sort_by_key(|k| (k.0, k.1));
+    v.extend(keyed.into_iter().map(|k| k.2));
+}
+
+fn construct(payload: &[u8], name: &str, md5: &Option<Dk>, sha1: &Option<Dk>, sha256: &Option<Dk>, pd: &Option<(Dk, u32)>, order: &[u16]) -> Vec<u8> {
     let mut main = filepkg::basic_entries(name);
     if let Some((k, algo)) = pd {
         let correct = digests::sha256_hex(&[payload]);
@@ -83,6 +95,7 @@ fn construct(payload: &[u8], name: &str, md5: &Option<Dk>, sha1: &Option<Dk>, sh
         main.push((tags::PAYLOADDIGESTALGO, Val::Int32(vec![*algo])));
     }
     main.sort_by_key(|e| e.0);
+    permute(&mut main, order, 3);
     let hdr = fmt::layout(&main, Some(fmt::TAG_HEADERIMMUTABLE));
     let hb = hdr.bytes();
     let mut sig = vec![];
@@ -96,6 +109,7 @@ fn construct(payload: &[u8], name: &str, md5: &Option<Dk>, sha1: &Option<Dk>, sh
         sig.push((tags::SIG_MD5, Val::Bin(mangle_bin(digests::md5_raw(&[&hb, payload]), digests::md5_raw(&[&hb]), k))));
     }
     sig.sort_by_key(|e| e.0);
+    permute(&mut sig, order, 0);
     let sigh = fmt::layout(&sig, Some(fmt::TAG_HEADERSIGNATURES));
     let pad = vec![0u8; fmt::sig_padding(sigh.dl)];
     fmt::RawPackage { lead: fmt::default_lead(name), sig: sigh, sig_pad: pad, hdr, payload: payload.to_vec() }.encode()
@@ -184,12 +198,14 @@ impl Property for C03 {
     const ID: &'static str = "C03";
     fn new(_t: Tier) -> Self {
         // two hand-encoded packages carrying all four digests
-        let b0 = construct(b"payload-bytes", "flipbase", &Some(Dk::Correct), &Some(Dk::Correct), &Some(Dk::Correct), &Some((Dk::Correct, 8)));
-        let b1 = construct(&[], "e", &Some(Dk::Correct), &Some(Dk::Correct), &Some(Dk::Correct), &Some((Dk::Correct, 8)));
-        C03 { flip_bases: vec![b0, b1] }
+        let b0 = construct(b"payload-bytes", "flipbase", &Some(Dk::Correct), &Some(Dk::Correct), &Some(Dk::Correct), &Some((Dk::Correct, 8)), &[]);
+        let b1 = construct(&[], "e", &Some(Dk::Correct), &Some(Dk::Correct), &Some(Dk::Correct), &Some((Dk::Correct, 8)), &[]);
+        // a third base whose index records are in descending tag order
+        let b2 = construct(b"p", "unsorted", &Some(Dk::Correct), &Some(Dk::Correct), &Some(Dk::Correct), &Some((Dk::Correct, 8)), &[9, 8, 7, 6, 5, 4, 3, 2, 1, 0]);
+        C03 { flip_bases: vec![b0, b1, b2] }
     }
     fn rule(&self) -> String {
-        "constructive: hand-encoded packages with every subset of {MD5, SHA1, SHA256, PAYLOADDIGEST+ALGO}, each digest correct / one position changed / truncated / extended / digest of the wrong byte range, algorithm 8, other known or unknown; plus EVERY single-bit flip of two hand-encoded packages carrying all four digests, with the expectation recomputed from the mutant by the reference decoder. Non-trivial = at least one digest tag present; distinct by hash of the package bytes.".into()
+        "constructive: hand-encoded packages with every subset of {MD5, SHA1, SHA256, PAYLOADDIGEST+ALGO}, each digest correct / one position changed / truncated / extended / digest of the wrong byte range, algorithm 8, other known or unknown; index records in ascending or permuted order; plus EVERY single-bit flip of three hand-encoded packages carrying all four digests (one with descending index order), with the expectation recomputed from the mutant by the reference decoder. Non-trivial = at least one digest tag present; distinct by hash of the package bytes.".into()
     }
     fn assumptions(&self) -> Vec<String> {
         vec![
@@ -198,7 +214,7 @@ impl Property for C03 {
         ]
     }
     fn required_labels(&self, _t: Tier) -> Vec<&'static str> {
-        vec!["expect-ok", "expect-mismatch", "expect-anyerr", "only-md5-wrong", "only-sha1-wrong", "only-sha256-wrong", "only-payload-wrong", "algo-known-unsupported", "algo-unknown", "bitflip"]
+        vec!["permuted-index", "expect-ok", "expect-mismatch", "expect-anyerr", "only-md5-wrong", "only-sha1-wrong", "only-sha256-wrong", "only-payload-wrong", "algo-known-unsupported", "algo-unknown", "bitflip"]
     }
     fn phases(&self, tier: Tier) -> Vec<Phase<C03Case>> {
         let bits: Vec<(u8, u32)> = self.flip_bases.iter().enumerate().flat_map(|(i, b)| (0..b.len() as u32 * 8).map(move |bit| (i as u8, bit))).collect();
@@ -211,8 +227,8 @@ impl Property for C03 {
                 cases: tier.pick(40_000, 800_000),
                 strat: Arc::new(|| {
                     let algo = prop_oneof![6 => Just(8u32), 2 => proptest::sample::select(vec![1u32, 9, 10, 11, 12, 14]), 2 => proptest::sample::select(vec![0u32, 2, 3, 7, 13, 255, u32::MAX]), 1 => any::<u32>()];
-                    (proptest::collection::vec(any::<u8>(), 0..40), "[a-z]{1,8}", proptest::option::weighted(0.6, dk()), proptest::option::weighted(0.6, dk()), proptest::option::weighted(0.7, dk()), proptest::option::weighted(0.6, (dk(), algo)))
-                        .prop_map(|(payload, name, md5, sha1, sha256, payload_digest)| C03Case::Constructed { payload, name, md5, sha1, sha256, payload_digest })
+                    (proptest::collection::vec(any::<u8>(), 0..40), "[a-z]{1,8}", proptest::option::weighted(0.6, dk()), proptest::option::weighted(0.6, dk()), proptest::option::weighted(0.7, dk()), proptest::option::weighted(0.6, (dk(), algo)), prop_oneof![2 => Just(vec![]), 1 => proptest::collection::vec(any::<u16>(), 12)])
+                        .prop_map(|(payload, name, md5, sha1, sha256, payload_digest, order)| C03Case::Constructed { payload, name, md5, sha1, sha256, payload_digest, order })
                         .boxed()
                 }),
             },
@@ -221,7 +237,10 @@ impl Property for C03 {
     fn check(&self, case: &C03Case) -> Outcome {
         let mut o = Outcome::new();
         let bytes = match case {
-            C03Case::Constructed { payload, name, md5, sha1, sha256, payload_digest } => {
+            C03Case::Constructed { payload, name, md5, sha1, sha256, payload_digest, order } => {
+                if !order.is_empty() {
+                    o.label("permuted-index");
+                }
                 let wrong = |k: &Option<Dk>| matches!(k, Some(x) if *x != Dk::Correct);
                 let pdw = matches!(payload_digest, Some((x, 8)) if *x != Dk::Correct);
                 let n_wrong = [wrong(md5), wrong(sha1), wrong(sha256), pdw].iter().filter(|b| **b).count();
@@ -236,7 +255,7 @@ impl Property for C03 {
                         o.label("algo-unknown");
                     }
                 }
-                construct(payload, name, md5, sha1, sha256, payload_digest)
+                construct(payload, name, md5, sha1, sha256, payload_digest, order)
             }
             C03Case::BitFlip { base, bit } => {
                 o.label("bitflip");
